@@ -9,7 +9,7 @@ import collections, json, os, random, shutil
 from vlib import querygen as QG
 from vlib import common as C, genjava as G, scan as S
 
-LEAN_MODULES = ["Cpf.Props.C05"]
+LEAN_MODULES = ["Cpf.Props.C05", "Cpf.Lemmas.Fields"]
 
 
 def norm_list(x):
